@@ -1,6 +1,6 @@
 //! C10 workload: per-link RDH histories (RDH-only packets) that start at an HBF start with two
 //! clean pages, then random-walk page counter / stop bit / orbit / trigger / FEE ID histories with
-//! injected faults: every single-bit flip of the header (except the framing and link fields),
+//! injected faults (1 in 5 of them doubled on the same RDH): every single-bit flip of the header (except the framing and link fields),
 //! boundary values of the checked fields, packet loss / duplication / reordering. The expected
 //! verdict per RDH comes from the reference models (sanity predicate, running automaton).
 
@@ -227,6 +227,12 @@ pub fn gen_history(rng: &mut Rng, n_links: usize, hbfs_per_link: u64, p_fault_pe
                         let prev = if i > 0 { Some(seq[i - 1].clone()) } else { None };
                         let k = mutate(&mut seq[i], prev.as_ref(), rng);
                         faults.push(k);
+                        // 1 in 5: a second deviation in the same RDH (rules must not hide behind one another)
+                        if rng.chance(1, 5) {
+                            let k2 = mutate(&mut seq[i], prev.as_ref(), rng);
+                            faults.push(k2);
+                            faults.push("two_deviations_in_one_rdh");
+                        }
                     }
                 }
             }
